@@ -93,58 +93,198 @@ def enum_clang(repo):
 OPS = {">=": "GGe", ">": "GGt", "<=": "GLe", "<": "GLt", "==": "GEq", "!=": "GNe"}
 FLIP = {">=": "<=", ">": "<", "<=": ">=", "<": ">", "==": "==", "!=": "!="}
 OPRE = r"(>=|<=|==|!=|>|<)"
+NEG = {">=": "<", "<": ">=", "<=": ">", ">": "<=", "==": "!=", "!=": "=="}
+
+
+def strip_parens(e):
+    """remove redundant outer parentheses"""
+    e = e.strip()
+    while e.startswith("(") and e.endswith(")"):
+        depth, ok = 0, True
+        for k, ch in enumerate(e):
+            depth += ch == "("
+            depth -= ch == ")"
+            if depth == 0 and k < len(e) - 1:
+                ok = False
+                break
+        if not ok:
+            break
+        e = e[1:-1].strip()
+    return e
+
+
+def comparison(expr, lhs_names, rhs_names):
+    """normalise `a OP b`, `b OP' a`, `!(a OP b)`, `!(b OP a)` with redundant parentheses and `this->` to the operator OP*
+    such that the expression means  lhs OP* rhs;  None when the expression has another shape"""
+    e = strip_parens(" ".join(expr.split()).replace("this->", "").replace("this ->", ""))
+    neg = False
+    while e.startswith("!"):
+        neg = not neg
+        e = strip_parens(e[1:])
+    m = re.fullmatch(r"(.+?)\s*" + OPRE + r"\s*(.+)", e)
+    if not m:
+        return None
+
+    def canon(t):
+        t = strip_parens(t).replace(" ", "")
+        t = re.sub(r"^this->", "", t)
+        return t
+    a, op, b = canon(m.group(1)), m.group(2), canon(m.group(3))
+    if a in lhs_names and b in rhs_names:
+        pass
+    elif a in rhs_names and b in lhs_names:
+        op = FLIP[op]
+    else:
+        return None
+    return NEG[op] if neg else op
+
+
+def split_template_args(txt):
+    """top-level arguments of a template argument list whose FIRST argument may contain comparison operators:
+    the first argument ends at the first comma outside parentheses; the others are split at angle depth 0"""
+    depth = 0
+    for k, ch in enumerate(txt):
+        depth += ch == "("
+        depth -= ch == ")"
+        if ch == "," and depth == 0:
+            first, rest = txt[:k], txt[k + 1:]
+            break
+    else:
+        return [txt]
+    out, cur, ang, par = [first], "", 0, 0
+    for ch in rest:
+        if ch == "<":
+            ang += 1
+        elif ch == ">":
+            ang -= 1
+        elif ch == "(":
+            par += 1
+        elif ch == ")":
+            par -= 1
+        if ch == "," and ang == 0 and par == 0:
+            out.append(cur)
+            cur = ""
+        else:
+            cur += ch
+    out.append(cur)
+    return [" ".join(a.split()) for a in out]
+
+
+def body_after(src, start):
+    """text between the `{` at/after position start and its matching `}`"""
+    k = src.index("{", start)
+    depth = 0
+    for e in range(k, len(src)):
+        depth += src[e] == "{"
+        depth -= src[e] == "}"
+        if depth == 0:
+            return src[k + 1:e], e + 1
+    raise ValueError("unbalanced braces")
+
+
+GATE_LHS = {"Severity"}
+GATE_RHS = {"severity_level::NITRO_LOG_MIN_SEVERITY", "log::severity_level::NITRO_LOG_MIN_SEVERITY",
+            "nitro::log::severity_level::NITRO_LOG_MIN_SEVERITY", "::nitro::log::severity_level::NITRO_LOG_MIN_SEVERITY"}
+
+
+def type_head(t):
+    """smart_stream<…> / detail::null_stream -> its unqualified template/class name"""
+    m = re.fullmatch(r"(?:typename\s+)?(?:(?:::)?(?:\w+::)*)(\w+)\s*(?:<.*>)?", t.strip(), flags=re.S)
+    return m.group(1) if m else "?"
 
 
 def gate(src):
-    """(op constructor, stream selected by true, stream selected by false)"""
-    op = "GCmpUnknown"
-    # log::actual_stream: using type = typename detail::actual_stream< <cond>, Record, Formatter, Sink, Filter, Severity>::type;
-    m = re.findall(r"using\s+type\s*=\s*typename\s+detail::actual_stream<(.*?),\s*Record\s*,\s*Formatter\s*,\s*Sink\s*,\s*Filter\s*,\s*Severity\s*>::type\s*;", src, flags=re.S)
-    if len(m) == 1:
-        cond = " ".join(m[0].split())
-        while cond.startswith("(") and cond.endswith(")"):     # (a > b) must be parenthesised inside a template argument list
-            cond = cond[1:-1].strip()
-        a = re.fullmatch(r"Severity\s*" + OPRE + r"\s*severity_level::NITRO_LOG_MIN_SEVERITY", cond)
-        b = re.fullmatch(r"severity_level::NITRO_LOG_MIN_SEVERITY\s*" + OPRE + r"\s*Severity", cond)
-        if a:
-            op = OPS[a.group(1)]
-        elif b:
-            op = OPS[FLIP[b.group(1)]]
-    # detail::actual_stream: primary template (condition true) and the <false, …> specialisation
-    prim = re.findall(r"template\s*<\s*bool\s*,[^<>]*(?:<[^<>]*>[^<>]*)*>\s*struct\s+actual_stream\s*\{\s*typedef\s+(\w+)\s*(?:<[^;]*>)?\s+type\s*;\s*\}", src, flags=re.S)
-    spec = re.findall(r"struct\s+actual_stream\s*<\s*(true|false)\s*,[^{}]*>\s*\{\s*typedef\s+(\w+)\s*(?:<[^;]*>)?\s+type\s*;\s*\}", src, flags=re.S)
-    t = f = "?"
-    if len(prim) == 1 and len(spec) == 1:
-        if spec[0][0] == "false":
-            t, f = prim[0], spec[0][1]
-        else:
-            f, t = prim[0], spec[0][1]
+    """(op constructor, stream selected by true, stream selected by false).  Accepted spellings of log::actual_stream::type:
+       using type = [typename] detail::actual_stream<COND, …>::type;      typedef [typename] detail::actual_stream<COND, …>::type type;
+       (with the primary template / <true|false, …> specialisation of detail::actual_stream naming the two stream types by
+       typedef or using), or   std::conditional_t<COND, A, B>  /  typename std::conditional<COND, A, B>::type."""
+    op, t, f = "GCmpUnknown", "?", "?"
+    # the public trait: template <severity_level Severity, …> struct actual_stream { … };
+    pub = [m for m in re.finditer(r"template\s*<\s*severity_level\s+Severity\s*,[^{};]*>\s*struct\s+actual_stream\s*(?=\{)", src)]
+    if len(pub) != 1:
+        return op, t, f
+    body, _ = body_after(src, pub[0].end())
+    body = " ".join(body.split())
+    m = re.fullmatch(r"using type = (.*) ;|using type = (.*);|typedef (.*) type ?;", body)
+    if not m:
+        return op, t, f
+    rhs = next(g for g in m.groups() if g is not None).strip()
+    cond = None
+    c = re.fullmatch(r"(?:typename )?(?:::)?std::conditional_t ?<(.*)>", rhs) or re.fullmatch(r"typename (?:::)?std::conditional ?<(.*)> ?::type", rhs)
+    d = re.fullmatch(r"(?:typename )?(?:detail::|log::detail::|nitro::log::detail::)actual_stream ?<(.*)> ?::type", rhs)
+    if c:
+        args = split_template_args(c.group(1))
+        if len(args) == 3:
+            cond, t, f = args[0], type_head(args[1]), type_head(args[2])
+    elif d:
+        args = split_template_args(d.group(1))
+        if [a.replace(" ", "") for a in args[1:]] == ["Record", "Formatter", "Sink", "Filter", "Severity"]:
+            cond = args[0]
+        # detail::actual_stream: primary template (its bool parameter unnamed) and one <true|false, …> specialisation
+        prim = [m for m in re.finditer(r"template\s*<\s*bool\s*(?:\w+\s*)?,[^{};]*>\s*struct\s+actual_stream\s*(?=\{)", src)]
+        spec = [m for m in re.finditer(r"struct\s+actual_stream\s*<\s*(true|false)\s*,[^{};]*>\s*(?=\{)", src)]
+
+        def member_type(mm):
+            b = " ".join(body_after(src, mm.end())[0].split())
+            x = re.fullmatch(r"using type = (.*?) ?;|typedef (.*) type ?;", b)
+            return type_head(next(g for g in x.groups() if g is not None)) if x else "?"
+        if len(prim) == 1 and len(spec) == 1:
+            if spec[0].group(1) == "false":
+                t, f = member_type(prim[0]), member_type(spec[0])
+            else:
+                f, t = member_type(prim[0]), member_type(spec[0])
+    if cond is not None:
+        o = comparison(cond, GATE_LHS, GATE_RHS)
+        if o:
+            op = OPS[o]
     return op, t, f
 
 
+FILTER_LHS = {"r.severity()"}
+
+
 def severity_filter(src):
-    op, init = "GCmpUnknown", "?"
-    m = re.findall(r"bool\s+filter\s*\(\s*Record\s*&\s*r\s*\)\s*const\s*\{([^{}]*)\}", src)
-    if len(m) == 1:
-        body = " ".join(m[0].split())
-        a = re.fullmatch(r"return r\.severity\(\)\s*" + OPRE + r"\s*min_severity\(\)\s*;", body)
-        b = re.fullmatch(r"return min_severity\(\)\s*" + OPRE + r"\s*r\.severity\(\)\s*;", body)
-        if a:
-            op = OPS[a.group(1)]
-        elif b:
-            op = OPS[FLIP[b.group(1)]]
-    g = re.findall(r"static\s+severity_level\s+min_severity\s*\(\s*\)\s*\{\s*return\s+sev\s*;\s*\}", src)
-    s = re.findall(r"static\s+void\s+set_severity\s*\(\s*severity_level\s+(\w+)\s*\)\s*\{\s*sev\s*=\s*(\w+)\s*;\s*\}", src)
-    accessors_ok = len(g) == 1 and len(s) == 1 and s[0][0] == s[0][1]
-    i = re.findall(r"severity_level\s+severity_filter\s*<\s*Record\s*,\s*N\s*>::sev\s*=\s*severity_level::(\w+)\s*;", src)
-    if len(i) == 1:
-        init = i[0]
-    # where the threshold lives: a static data member `sev` of the class template over (Record, N), defined once out of class
-    storage = "?"
-    decl = re.findall(r"template\s*<\s*typename\s+Record\s*,\s*unsigned\s+N\s*=\s*0\s*>\s*class\s+severity_filter\s*\{(.*?)\n\s*\};", src, flags=re.S)
-    defn = re.findall(r"template\s*<\s*typename\s+Record\s*,\s*unsigned\s+N\s*>\s*severity_level\s+severity_filter\s*<\s*Record\s*,\s*N\s*>::sev\s*=", src)
-    if len(decl) == 1 and len(defn) == 1 and len(re.findall(r"static\s+severity_level\s+sev\s*;", decl[0])) == 1 and accessors_ok:
+    """(comparison of filter(), initial threshold, where the threshold lives).
+    Storage spellings that all mean ONE THRESHOLD PER (Record, N), i.e. an entity declared inside the class template:
+      (a) static severity_level sev;  + out-of-class  template <…> severity_level severity_filter<Record, N>::sev = severity_level::X;
+      (b) inline static / static inline severity_level sev = severity_level::X;   (in-class initialiser)
+      (c) static severity_level& acc() { static severity_level v = severity_level::X; return v; }   used by both accessors
+    Anything else (a namespace-scope variable or helper, a non-template base, …) reads as "?"."""
+    op, init, storage = "GCmpUnknown", "?", "?"
+    cls = [m for m in re.finditer(r"template\s*<\s*typename\s+Record\s*,\s*unsigned\s+N\s*(?:=\s*0\s*)?>\s*class\s+severity_filter\s*(?=\{)", src)]
+    if len(cls) != 1:
+        return op, init, storage
+    body, end = body_after(src, cls[0].end())
+    # ---- the storage entity, declared inside the class body
+    store_names = set()
+    a = re.findall(r"(?<![\w])static\s+severity_level\s+(\w+)\s*;", body)
+    b = re.findall(r"(?:inline\s+static|static\s+inline)\s+severity_level\s+(\w+)\s*(?:=\s*severity_level::(\w+)|\{\s*severity_level::(\w+)\s*\})\s*;", body)
+    c = re.findall(r"static\s+severity_level\s*&\s*(\w+)\s*\(\s*\)\s*(?:noexcept\s*)?\{\s*static\s+severity_level\s+(\w+)\s*(?:=\s*severity_level::(\w+)|\{\s*severity_level::(\w+)\s*\})\s*;\s*return\s+(\w+)\s*;\s*\}", body)
+    if len(a) == 1 and not b and not c:
+        d = re.findall(r"template\s*<\s*typename\s+Record\s*,\s*unsigned\s+N\s*>\s*severity_level\s+severity_filter\s*<\s*Record\s*,\s*N\s*>::(\w+)\s*"
+                       r"(?:=\s*severity_level::(\w+)|\{\s*severity_level::(\w+)\s*\})\s*;", src[end:])
+        if len(d) == 1 and d[0][0] == a[0]:
+            store_names, init = {a[0]}, d[0][1] or d[0][2]
+    elif len(b) == 1 and not a and not c:
+        store_names, init = {b[0][0]}, b[0][1] or b[0][2]
+    elif len(c) == 1 and not a and not b and c[0][1] == c[0][4]:
+        store_names, init = {c[0][0] + "()"}, c[0][2] or c[0][3]
+    # ---- the accessors must use exactly that entity
+    g = re.findall(r"static\s+severity_level\s+min_severity\s*\(\s*\)\s*(?:noexcept\s*)?\{\s*return\s+([^;{}]+?)\s*;\s*\}", body)
+    s = re.findall(r"static\s+void\s+set_severity\s*\(\s*(?:const\s+)?severity_level\s+(\w+)\s*\)\s*(?:noexcept\s*)?\{\s*([^;{}=]+?)\s*=\s*(\w+)\s*;\s*\}", body)
+
+    def canon(t):
+        return strip_parens(t).replace(" ", "")
+    if store_names and len(g) == 1 and len(s) == 1 and s[0][0] == s[0][2] and canon(g[0]) in store_names and canon(s[0][1]) in store_names:
         storage = "static member of severity_filter<Record, N>"
+    else:
+        init = "?"
+    # ---- filter(): one return statement comparing the record's severity with the threshold
+    m = re.findall(r"bool\s+filter\s*\(\s*(?:const\s+)?Record\s*&\s*r\s*\)\s*const\s*(?:noexcept\s*)?\{\s*return\s+([^;{}]+);\s*\}", body)
+    if len(m) == 1:
+        o = comparison(m[0], FILTER_LHS, {"min_severity()", "severity_filter::min_severity()"} | store_names)
+        if o:
+            op = OPS[o]
     return op, init, storage
 
 
